@@ -88,6 +88,7 @@ pub const FAIL_KINDS: &[&str] = &[
     "broken-unused-macros",
     "error-in-nested-macro",
     "undef-macro-in-macro",
+    "avrasm2-time-symbols",
 ];
 
 /// Devices used by generated programs: (name, forbids mul, forbids jmp, avr8l, flash words, ram, eeprom)
@@ -925,6 +926,15 @@ pub fn gen(r: &mut Rng, pool: &Pool, opts: &GenOpts) -> Program {
                 Node::Macro(vec![format!(".macro n{}out", pool.tag), format!("    n{}mid", pool.tag), "    nop".to_string(), ".endm".to_string()]),
                 Node::Lines(vec![format!("    n{}out", pool.tag)]),
             ],
+            // AVRASM2's predefined build-time symbols: unknown names today (the build fails the
+            // same way every time); a tree that defines them from the wall clock builds something
+            // else in every process - the two reference processes run at different clock origins
+            "avrasm2-time-symbols" => vec![Node::Lines(vec![match g.r.below(4) {
+                0 => "    ldi r16, __YEAR__".to_string(),
+                1 => ".dw __YEAR__, __MONTH__, __DAY__".to_string(),
+                2 => "    ldi r17, __HOUR__\n    ldi r18, __MINUTE__\n    ldi r19, __SECOND__".to_string(),
+                _ => ".db __CENTURY__, __YEAR__".to_string(),
+            }])],
             "undef-macro-in-macro" => vec![
                 Node::Macro(vec![format!(".macro u{}mid", pool.tag), "    nop".to_string(), format!("    u{}nowhere r16", pool.tag), ".endm".to_string()]),
                 Node::Macro(vec![format!(".macro u{}out", pool.tag), "    nop".to_string(), format!("    u{}mid", pool.tag), ".endm".to_string()]),
